@@ -1,6 +1,7 @@
 import CifModel.Lemmas.ParserTop
 import CifModel.Lemmas.ParserQuiet
 import CifModel.Lemmas.ParserConsistent
+import CifModel.Props.C03Extra
 /-
   Props/C03 — the parser is total and honours the error-callback contract on any input (property C03), as theorems about
   the integrated parser model `Model.Parser.parse` (tied to src/parser.c by the `parse` correspondence family).
@@ -159,11 +160,6 @@ theorem C03_reported_partial (o : Opts) (pol : Policy) (pre : Cif) (units : Str)
   · exact absurd h hs
   · intro he; rw [he] at h2; simp at h2
 
-/-- the full statement: valid options, a failure that is not a resource failure ⇒ at least one report -/
-def C03_reported_full : Prop :=
-  ∀ (o : Opts) (pol : Policy) (pre : Cif) (units : Str),
-    (parse o pol pre units).rc ≠ 0 → (parse o pol pre units).rc ≠ 3 → (parse o pol pre units).log ≠ []
-
 /-- **C03_die_is_first** — with the abort-on-error handler (`cif_parse_error_die`: the answer is the code) the parse returns
     exactly the first code the accept-all parse of the same input reports; when that parse reports nothing, the two parses
     have the same outcome. -/
@@ -196,15 +192,15 @@ theorem C03_die_is_first (o : Opts) (pre : Cif) (units : Str) :
     · simp only [dieAll] at hneg
       omega
 
-/-- **C03_reported** — every callback policy: a parse that fails with a value other than CIF_INVALID_INDEX (73) and the
-    model's out-of-fuel marker (1001) has reported at least one error.  In particular the "should not happen" exits of
-    parser.c (CIF_INTERNAL_ERROR from parse_value, parse_loop ×2 and parse_container; CIF_INVALID_ITEMNAME from
-    cif_container_set_value and from cif_packet_create; CIF_DUP_ITEMNAME from cif_packet_create) are never taken before
-    an error has been reported (`Lemmas/ParserQuiet`: on the report-free path the pending token is never of type ERROR, a
-    value is only parsed at a value token, an item is only stored under a valid name, and the names a loop header keeps are
-    valid, pairwise distinct after normalisation and not yet defined in the container). -/
+/-- **C03_reported** — every callback policy: a parse that fails with a value other than the model's out-of-fuel marker
+    (1001) has reported at least one error.  In particular the "should not happen" exits of parser.c (CIF_INTERNAL_ERROR from
+    parse_value, parse_loop ×2 and parse_container; CIF_INVALID_ITEMNAME from cif_container_set_value and from
+    cif_packet_create; CIF_DUP_ITEMNAME from cif_packet_create) are never taken before an error has been reported
+    (`Lemmas/ParserQuiet`: on the report-free path the pending token is never of type ERROR, a value is only parsed at a
+    value token, an item is only stored under a valid name, and the names a loop header keeps are valid, pairwise distinct
+    after normalisation and not yet defined in the container); CIF_INVALID_INDEX is itself reported (since 8375485). -/
 theorem C03_reported (o : Opts) (pol : Policy) (pre : Cif) (units : Str)
-    (hrc : (parse o pol pre units).rc ≠ 0) (h1 : (parse o pol pre units).rc ≠ 1001) (h2 : (parse o pol pre units).rc ≠ 73) :
+    (hrc : (parse o pol pre units).rc ≠ 0) (h1 : (parse o pol pre units).rc ≠ 1001) :
     (parse o pol pre units).log ≠ [] := by
   intro hlog
   -- with an empty log the parse coincides with the accept-all parse, and that with the parse under `dieAll`
@@ -226,18 +222,42 @@ theorem C03_reported (o : Opts) (pol : Policy) (pre : Cif) (units : Str)
     rw [hA] at hd
     simp only [] at hd
     have heq : parse o pol pre units = parse o dieAll pre units := by rw [hs, hd]
-    rw [heq] at hrc h1 h2 hlog
+    rw [heq] at hrc h1 hlog
     have hfin := parseInternal_die o (fuelFor units) units { log := [], cif := pre } rfl
-    unfold parse run at hrc h1 h2 hlog
+    unfold parse run at hrc h1 hlog
     cases hr : parseInternal o (fuelFor units) units dieAll { log := [], cif := pre } with
     | ok a w => rw [hr] at hrc; exact hrc rfl
     | abort c w =>
-      rw [hr] at hfin h1 h2 hlog
-      simp only [] at hfin h1 h2 hlog
-      rcases hfin with h | h | h
+      rw [hr] at hfin h1 hlog
+      simp only [] at hfin h1 hlog
+      rcases hfin with h | h
       · apply h; simpa using hlog
       · exact h1 h
-      · exact h2 h
+
+/-- **C03_reported_full** — every option record, every callback policy, every initial target, every input: a parse that
+    fails has reported at least one error.  (`C03_reported` + the fuel lemma of group gC: a parse whose log is empty is the
+    accept-all parse, and that never ends with the out-of-fuel marker.) -/
+theorem C03_reported_full (o : Opts) (pol : Policy) (pre : Cif) (units : Str) (hrc : (parse o pol pre units).rc ≠ 0) :
+    (parse o pol pre units).log ≠ [] := by
+  intro hlog
+  by_cases h1 : (parse o pol pre units).rc = 1001
+  · -- an empty log: the parse is the accept-all parse, whose result is never 1001
+    obtain ⟨_, _, hs⟩ := parse_spec o pol pre (fuelFor units) units
+    change match firstNZ pol 0 (parse o acceptAll pre units).log.reverse with
+      | none => parse o pol pre units = parse o acceptAll pre units
+      | some x => (parse o pol pre units).log = (x.1 :: x.2).reverse ∧
+          ((parse o pol pre units).rc = pol x.2.length x.1 ∨ (pol x.2.length x.1 < 0 ∧ (parse o pol pre units).rc = 0)) at hs
+    cases hz : firstNZ pol 0 (parse o acceptAll pre units).log.reverse with
+    | some x =>
+      rw [hz] at hs
+      rw [hs.1] at hlog
+      simp at hlog
+    | none =>
+      rw [hz] at hs
+      simp only [] at hs
+      rw [hs] at h1
+      exact C03_fuel_suffices_accept_all o pre units h1
+  · exact C03_reported o pol pre units hrc h1 hlog
 
 /-- the consistency of a managed CIF (`Lemmas/ParserStore.OkCif`), spelled out: block codes pairwise distinct after
     normalisation; in every container, recursively: frame codes pairwise distinct after normalisation, every normalised item
